@@ -43,6 +43,8 @@ class PeerRun:
             @staticmethod
             def socket(*a):
                 s = fakenet.FakeSocket()
+                # connect() to an address in run.unreachable fails on the spot (ENETUNREACH), as on a host without a route to it
+                s.connect_errno = lambda addr: 101 if h_of(addr[0]) in run.unreachable else 0
                 run.new_socks.append(s)
                 return s
         self._orig_socket = lp.socket
@@ -55,6 +57,7 @@ class PeerRun:
                                  for (h, p) in initial}
         self.events = []
         self.mid = 10
+        self.unreachable = set()      # abstract host numbers
 
     def key_of(self, peer):
         return dict(h=h_of(peer.host), p=peer.port if isinstance(peer.port, int) else 0, d=peer.direction)
@@ -96,8 +99,19 @@ class PeerRun:
         for p in self.node.local.network_manager.connected_peers.values():
             if p not in before and p.direction == "OUTGOING" and p.sock in self.new_socks:
                 attempts.append(self.key_of(p))
-        # attempts whose connection was replaced/dropped within the same step still count
+        # an attempt is a connect() on a new socket, whatever the node then records about it (attempts whose connection was replaced, dropped
+        # or never registered within the same step still count)
+        for s_ in self.new_socks:
+            a_ = getattr(s_, "connect_addr", None)
+            if a_ is not None:
+                k_ = dict(h=h_of(a_[0]), p=a_[1], d="OUTGOING")
+                if k_ not in attempts:
+                    attempts.append(k_)
         self.events.append({"op": "step", "attempts": attempts, "n_sockets": len(self.new_socks), "post": self.post(raised)})
+        # the selector reports the sockets whose connect() failed: the node reads, gets the error, and drops the connection
+        for p in list(self.node.local.network_manager.connected_peers.values()):
+            if p.sock in self.new_socks and getattr(p.sock, "connect_failed", False):
+                self.close(self.key_of(p), failed_connect=True)
         return attempts
 
     def incoming(self, h, p):
@@ -123,14 +137,15 @@ class PeerRun:
             self.node.escaped.append(("event_read", repr(e)))
             return True
 
-    def close(self, key):
+    def close(self, key, failed_connect=False):
         peer = self._find(key)
         was_open = peer is not None
         if peer is not None:
             peer.sock.inbox = b""
-            peer.sock.peer_closed = True
-            self._deliver(peer, b"")          # recv() returns b"": closed remotely
-        self.events.append({"op": "close", "key": key, "was_open": was_open, "post": self.post()})
+            if not failed_connect:
+                peer.sock.peer_closed = True
+            self._deliver(peer, b"")          # recv() returns b"": closed remotely (or raises: the connect() had failed)
+        self.events.append({"op": "close", "key": key, "was_open": was_open, "failed_connect": failed_connect, "post": self.post()})
 
     def hello(self, key, port, is_self):
         peer = self._find(key)
